@@ -46,6 +46,7 @@ STUBS = {
     'drop_odd': ('bytes::bytes::promotable_odd_drop', 'crate::common::stubs::drop_noop'),
     'bm': ('bytes::BytesMut::new', 'crate::common::stubs::bm_new'),
     'canon': ('ipp::util::canonicalize_uri', 'crate::common::stubs::canon_id'),
+    'block_on': ('futures_executor::local_pool::block_on', 'crate::common::stubs::block_on_stub'),
 }
 STUB_TEXT = {
     'lossy': 'String::from_utf8_lossy -> model: identity on ASCII, arbitrary <=3-char ASCII string otherwise',
@@ -53,10 +54,11 @@ STUB_TEXT = {
     'drop_even': 'bytes::bytes::promotable_even_drop -> no-op (buffer leaked)',
     'drop_odd': 'bytes::bytes::promotable_odd_drop -> no-op (buffer leaked)',
     'bm': 'bytes::BytesMut::new -> BytesMut::with_capacity(256) (no growth path)',
+    'block_on': 'futures_executor::block_on -> poll loop with a no-op waker (Kani cannot compile the thread-parking executor)',
     'canon': 'ipp::util::canonicalize_uri -> identity (harness passes an already canonical ipp:// URI; C13 owns the canonicaliser)',
 }
-DEFAULT_STUBS = ['lossy', 'drop_even', 'drop_odd', 'bm']
-ASCII_STUBS = ['lossy_ascii', 'drop_even', 'drop_odd', 'bm']
+DEFAULT_STUBS = ['lossy', 'drop_even', 'drop_odd', 'bm', 'block_on']
+ASCII_STUBS = ['lossy_ascii', 'drop_even', 'drop_odd', 'bm', 'block_on']
 # initial per-loop bounds by pretty function name (regex); everything else starts at the harness's
 # default unwind (small, also the recursion bound) and is raised on demand by auto-deepening
 DEFAULT_BOUNDS = {
@@ -271,7 +273,7 @@ def run_cbmc(entry, unwind, unwindset, timeout, mem_gb, trace=False, logpath=Non
             return {'status': 'TIMEOUT', 'wall': time.time() - t0, 'cmd': cmd}
     wall = time.time() - t0
     try:
-        data = json.load(open(outp))
+        data = json.loads(open(outp, errors="replace").read(), strict=False)
     except Exception as e:
         return {'status': 'ERROR', 'wall': wall, 'why': 'unparseable cbmc output (rc=%s, likely out of memory): %s' % (rc, e), 'cmd': cmd}
     res = {'status': 'DONE', 'wall': wall, 'cmd': cmd, 'props': [], 'stats': {}}
@@ -410,7 +412,7 @@ def decide(h, art, tier_cfg, use_cache=True):
     runs = []
     total = {'Symex': 0.0, 'Solver': 0.0, 'decision procedure': 0.0}
     res = None
-    for it in range(12):
+    for it in range(40):
         left = budget - (time.time() - t_start)
         if left < 5:
             return {'name': name, 'verdict': 'INCONCLUSIVE', 'why': 'time budget %ds exhausted during bound deepening' % budget,
@@ -532,7 +534,8 @@ def extract_inp(trace):
                     if iv is not None and k < INP_LEN:
                         out[k] = iv
                         seen = True
-    return out if seen else None
+    # no input byte in the trace: the failure does not depend on the symbolic input (any input reproduces it)
+    return out
 
 
 INP_LEN = 128
